@@ -1032,7 +1032,9 @@ def rule_C5(prog):
                 if s["k"] != "assign":
                     continue
                 rv = s["rv"]
-                if rv["k"] == "discr" and is_dl_place(rv["p"]) and not conv and fn.path in d.carriers and d.inline_conversion(fn, i):
+                if rv["k"] == "discr" and is_dl_place(rv["p"]) and not conv and fn.path in d.carriers and \
+                        (i in d.carrier_switch_blocks(fn) or any(m.dominates(sb_, i) for sb_ in d.carrier_switch_blocks(fn))) and \
+                        d.inline_conversion(fn, i):
                     # the same open-coded conversion inside a carrier: `match self.deadline { Some(Absolute(i)) => Some(i),
                     # Some(Relative(d)) => duration_to_deadline(d), None => None }` -- the arms only rewrap the value
                     r.instances += 1
